@@ -110,7 +110,10 @@ def main(argv=None):
             undecided.append((r["scenario"], u))
         if not r["obligations"] and not r["undecided"]:
             crashes.append((r["scenario"], "scenario produced zero obligations (vacuity guard)"))
+        include = getattr(pm, "INCLUDE", None)
         for name, ob in r["obligations"].items():
+            if include is not None and not include(name):
+                continue
             ob = dict(ob, scenario=r["scenario"], name=name)
             if r["kind"] == "bounded":
                 n_bounded += 1
